@@ -132,7 +132,7 @@ def prepare_replay(pid, hdir, rel, work):
 import (
 	"fmt"
 	"os"
-	"runtime/debug"
+	rtdebug "runtime/debug"
 	"testing"
 )
 
@@ -144,7 +144,7 @@ func TestVerifReplay(t *testing.T) {
 	defer func() {
 		if r := recover(); r != nil {
 			fmt.Printf("REPLAY-PANIC: %%v\\n", r)
-			debug.PrintStack()
+			rtdebug.PrintStack()
 			return
 		}
 	}()
